@@ -5,14 +5,19 @@
 // portable block function.
 //
 // Part 1 (grid)  mode x time x threads x memory x keyLen x password/salt shape x value
-//                classes on the real Key/IDKey under both settings of useSSE4, against
-//                the RFC 9106 model in verif/ref/argon2ref.
+//
+//	classes on the real Key/IDKey under both settings of useSSE4, against
+//	the RFC 9106 model in verif/ref/argon2ref.
+//
 // Part 2         RFC 9106 §5.2/§5.3 vectors (secret + associated data) on the real
-//                deriveKey under both settings.
+//
+//	deriveKey under both settings.
+//
 // Part 3 (grid)  blake2bHash (H') for every output length 1..1100 x input shapes.
 // Part 4 (grid)  the block function: dispatched (SSE4 on / off) and processBlockGeneric
-//                against the model's G for a block value alphabet x {xor, no xor} x
-//                aliasing patterns used by the package.
+//
+//	against the model's G for a block value alphabet x {xor, no xor} x
+//	aliasing patterns used by the package.
 package main
 
 import (
@@ -76,7 +81,7 @@ func run(c *vf.Ctx) {
 	c.Set("cpu_has_sse4.1", hasSSE4)
 	c.Rule("quick: mode{Argon2i,Argon2id} x threads{1,2,3,4,5,8,16} x memory{1,7,8t-1,8t,8t+1,8t+3,10t,12t-1,12t,12t+1,16t+5,64,100,256} KiB x " +
 		"[time 1: keyLen{1,4,31,32,33,63,64,65,95,96,97,127,128,129,300} x (pwLen,saltLen){(0,0),(1,8),(8,1),(200,200),(0,200),(200,0)}; time 2,3: keyLen{32,65,128} x (8,16)] " +
-		"plus threads 255 x memory{1,2039,2040,2041,3059,3060,3061,4096} x time{1,2} x keyLen{32,65}; each point x 2 value classes x block function {SSE4 asm, SSE2+portable rounds}; " +
+		"plus long segments (threads,memory){(1,516),(1,1024),(1,1031),(2,1040),(2,2048),(3,1600)} x time{1,2} x keyLen{32,65}; plus threads 255 x memory{1,2039,2040,2041,3059,3060,3061,4096} x time{1,2} x keyLen{32,65}; each point x 1 value class (fixed alphabet / seeded, alternating along the grid) x block function {SSE4 asm, SSE2+portable rounds}; " +
 		"thorough: threads 1..17,32,64,128,254,255, more memory values (up to 1024 KiB), 27 key lengths x 16 shapes at time 1 (2 shapes at time 2,3), 3 value classes; " +
 		"H': every output length 1..1100 x input length{0,1,64,72,127,128,1024}; block function: 3 implementations x block alphabet x {xor,plain} x {distinct,out=in1}; " +
 		"non-trivial = distinct points with threads>=2, or memory not a multiple of 4*threads, or memory<8*threads, or keyLen>64")
@@ -123,11 +128,26 @@ func run(c *vf.Ctx) {
 					}
 					for _, kl := range kls {
 						for _, sh := range shs {
+							if !c.Thorough {
+								// quick: one value class per point, alternating between the fixed
+								// alphabet and the seeded classes along the grid
+								grid = append(grid, point{mode, time, t, m, kl, sh[0], sh[1], len(grid) % 3})
+								continue
+							}
 							for cl := 0; cl < nclass; cl++ {
 								grid = append(grid, point{mode, time, t, m, kl, sh[0], sh[1], cl})
 							}
 						}
 					}
+				}
+			}
+		}
+		// segments longer than 128 blocks (Argon2i/id address blocks are regenerated every
+		// 128 indices): segment length = memory/(4*threads)
+		for _, tm := range [][2]uint32{{1, 516}, {1, 1024}, {1, 1031}, {2, 1040}, {2, 2048}, {3, 1600}} {
+			for _, time := range []uint32{1, 2} {
+				for _, kl := range []uint32{32, 65} {
+					grid = append(grid, point{mode, time, uint8(tm[0]), tm[1], kl, 8, 16, len(grid) % 3})
 				}
 			}
 		}
